@@ -710,41 +710,12 @@ fn test_exponent() {
     assert_eq!(p(b"."), wrong_chars(b"."));
 }
 
-/// Build a high precision float from each part of literal
-fn calculate_float64_from_parts(left: DigitSequence, right: DigitSequence, exponent: i64) -> f64 {
-    let mut left_combined = 0f64;
-    for digit in left {
-        left_combined *= 10f64;
-        left_combined += digit as f64;
-    }
-    let left_float = left_combined;
-
-    let mut right_combined = 0f64;
-    let right_len = right.len();
-    for digit in right {
-        right_combined *= 10f64;
-        right_combined += digit as f64;
-    }
-    let mut right_float = right_combined;
-    for _ in 0..right_len {
-        right_float /= 10f64;
-    }
-
-    let mantissa = left_float + right_float;
-    let mut value64 = mantissa;
-    if exponent > 0 {
-        for _ in 0..exponent {
-            value64 *= 10f64;
-        }
-    } else {
-        let mut m = 1.0;
-        for _ in 0..(-exponent) {
-            m *= 10f64;
-        }
-        value64 /= m;
-    }
-
-    value64
+/// Convert the decimal text of a float literal into the nearest 64-bit float
+fn parse_float64(text: &[u8]) -> f64 {
+    // The text is made from digits, a decimal point and an exponent which are all valid in a Rust float
+    let text = std::str::from_utf8(text).expect("float literal text is ascii");
+    text.parse::<f64>()
+        .expect("float literal text is a valid float")
 }
 
 /// Parse a float literal
@@ -756,11 +727,11 @@ fn literal_float(input: &[u8]) -> LexResult<'_, Token> {
 
     // Then if that failed try to parse as a whole number
     let has_fraction = fraction.is_some();
-    let (input, fraction) = match fraction {
-        Some(f) => (input, f),
+    let input = match fraction {
+        Some(_) => input,
         None => {
-            let (input, whole_number) = digit_sequence(input)?;
-            (input, Fraction(whole_number, Vec::new()))
+            let (input, _) = digit_sequence(input)?;
+            input
         }
     };
 
@@ -773,10 +744,7 @@ fn literal_float(input: &[u8]) -> LexResult<'_, Token> {
     }
 
     // Calculate the value of the float before we apply modifiers on the end
-    let exponent = exponent_opt.unwrap_or(Exponent(0));
-    let Fraction(left, right) = fraction;
-    let Exponent(exp) = exponent;
-    let value64 = calculate_float64_from_parts(left, right, exp);
+    let value64 = parse_float64(&base_input[..base_input.len() - input.len()]);
 
     let pre_suffix_input = input;
 
